@@ -32,6 +32,7 @@ import Driver.C18R
 import Driver.CK
 import Driver.C14Tok
 import Driver.E2E
+import Driver.CRules
 /-!
 Line-protocol driver `jsight-model` (DESIGN.md §12). One request per line on stdin, one reply per
 line on stdout. Core Lean only: nothing imported here may import Mathlib (the executable would
@@ -251,6 +252,8 @@ def handle (line : String) : String :=
   | "tg" :: _ => DTG.handle line
   | "lk" :: _ => DLK.handle line
   | "ck" :: _ => DCK.handle (restOf line)
+  | "crules" :: _ => DCR.handle line
+  | "cspec" :: _ => DCR.handle line
   | "ast" :: r => DMisc.ast r
   | "rgx" :: r => DMisc.rgx r
   | "c18r" :: r => DC18R.handle r
